@@ -1,8 +1,72 @@
 //! Crash reporting: the history in flight is printed by the panic hook (for non-unwinding panics, i.e. the
 //! standard library's UB precondition checks) and by a signal handler (SIGSEGV/SIGBUS/SIGILL/SIGABRT).
 //! The orchestrator replays an `INFLIGHT` record twice in fresh processes before it becomes a verdict.
+//!
+//! A library call that never returns (an endless loop under a defect) is handled the same way: a watchdog thread
+//! notices that a worker has been inside the same case for `VERIF_STALL_SECS` (default 120) seconds and signals that
+//! thread; its handler prints the case in flight with `reason=stalled`.
 
 use std::cell::{Cell, RefCell};
+use std::sync::atomic::{AtomicBool, AtomicU64, Ordering};
+use std::sync::{Arc, Mutex};
+
+struct Slot {
+    tid: libc::pthread_t,
+    /// bumped whenever the case in flight on this thread changes
+    epoch: AtomicU64,
+    in_subject: AtomicBool,
+}
+
+static SLOTS: Mutex<Vec<Arc<Slot>>> = Mutex::new(Vec::new());
+static STALL_TARGET: AtomicU64 = AtomicU64::new(0);
+
+thread_local! {
+    static SLOT: std::cell::OnceCell<Arc<Slot>> = const { std::cell::OnceCell::new() };
+}
+
+fn progress(in_subject: bool) {
+    SLOT.with(|s| {
+        let slot = s.get_or_init(|| {
+            let slot = Arc::new(Slot { tid: unsafe { libc::pthread_self() }, epoch: AtomicU64::new(0), in_subject: AtomicBool::new(false) });
+            SLOTS.lock().unwrap_or_else(|e| e.into_inner()).push(slot.clone());
+            slot
+        });
+        slot.epoch.fetch_add(1, Ordering::Relaxed);
+        slot.in_subject.store(in_subject, Ordering::Relaxed);
+    });
+}
+
+fn start_watchdog() {
+    let stall: u64 = std::env::var("VERIF_STALL_SECS").ok().and_then(|s| s.parse().ok()).unwrap_or(120);
+    if stall == 0 {
+        return;
+    }
+    std::thread::spawn(move || {
+        // (epoch seen, seconds it has not changed) per slot
+        let mut seen: Vec<(u64, u64)> = Vec::new();
+        let tick = 5u64.min(stall.max(1));
+        loop {
+            std::thread::sleep(std::time::Duration::from_secs(tick));
+            let slots: Vec<Arc<Slot>> = SLOTS.lock().unwrap_or_else(|e| e.into_inner()).clone();
+            seen.resize(slots.len(), (u64::MAX, 0));
+            for (i, s) in slots.iter().enumerate() {
+                let e = s.epoch.load(Ordering::Relaxed);
+                if e != seen[i].0 || !s.in_subject.load(Ordering::Relaxed) {
+                    seen[i] = (e, 0);
+                    continue;
+                }
+                seen[i].1 += tick;
+                if seen[i].1 >= stall {
+                    STALL_TARGET.store(s.tid as u64, Ordering::SeqCst);
+                    unsafe { libc::pthread_kill(s.tid, libc::SIGABRT) };
+                    // the handler of that thread reports and ends the process
+                    std::thread::sleep(std::time::Duration::from_secs(30));
+                    std::process::exit(3);
+                }
+            }
+        }
+    });
+}
 
 thread_local! {
     static INFLIGHT: RefCell<Option<String>> = const { RefCell::new(None) };
@@ -15,18 +79,21 @@ thread_local! {
 pub fn set_inflight_lazy(data: *const (), fmt: fn(*const ()) -> String) {
     INFLIGHT_FN.with(|c| c.set(Some((data, fmt))));
     IN_SUBJECT.with(|c| c.set(true));
+    progress(true);
 }
 
 /// Registers the description of the case in flight on this thread (eager form).
 pub fn set_inflight(desc: String) {
     INFLIGHT.with(|c| *c.borrow_mut() = Some(desc));
     IN_SUBJECT.with(|c| c.set(true));
+    progress(true);
 }
 
 pub fn clear_inflight() {
     INFLIGHT.with(|c| *c.borrow_mut() = None);
     INFLIGHT_FN.with(|c| c.set(None));
     IN_SUBJECT.with(|c| c.set(false));
+    progress(false);
 }
 
 fn describe() -> Option<String> {
@@ -75,6 +142,7 @@ pub fn install() {
             libc::sigaction(sig, &sa, std::ptr::null_mut());
         }
     }
+    start_watchdog();
 }
 
 /// Worker threads need their own alternate signal stack.
@@ -100,7 +168,9 @@ extern "C" fn handler(sig: libc::c_int, _info: *mut libc::siginfo_t, _ctx: *mut 
     let d = describe().unwrap_or_else(|| "<none>".into());
     let insub = IN_SUBJECT.with(|c| c.get());
     let msg = LAST_PANIC.with(|c| c.try_borrow().ok().and_then(|m| m.clone())).unwrap_or_default();
-    let line = format!("\nINFLIGHT in_subject={} reason=signal{} msg={:?} case={}\n", insub, sig, msg, d);
+    let stalled = STALL_TARGET.load(Ordering::SeqCst) == unsafe { libc::pthread_self() } as u64;
+    let (reason, msg) = if stalled { ("stalled".to_string(), "the call did not return within the stall limit (endless loop)".to_string()) } else { (format!("signal{sig}"), msg) };
+    let line = format!("\nINFLIGHT in_subject={} reason={} msg={:?} case={}\n", insub, reason, msg, d);
     unsafe {
         libc::write(1, line.as_ptr() as *const libc::c_void, line.len());
         libc::signal(sig, libc::SIG_DFL);
